@@ -49,10 +49,6 @@ Qed.
 Lemma reach_first g x t : reach g x t -> exists b, In b (bases g x) /\ (t = b \/ reach g b t).
 Proof. destruct 1; eauto. Qed.
 
-(* a rank: every base sits strictly lower *)
-Definition ranked (g : graph) (r : node -> nat) : Prop :=
-  forall x b, In b (bases g x) -> r b < r x.
-
 Lemma ranked_reach g r : ranked g r -> forall x t, reach g x t -> r t < r x.
 Proof. intros R x t H. induction H as [x b H | x b t H _ IH]; [auto | specialize (R _ _ H); lia]. Qed.
 
@@ -774,7 +770,7 @@ Section Steps.
 
   Lemma step_inv st o : Inv st -> op_ok st o = true -> Inv (step reorder st o).
   Proof.
-    intros I Hok. destruct o as [x k bs | x bs | x]; cbn [step op_ok] in *.
+    intros I Hok. destruct o as [x k bs | x bs | x]; unfold op_ok, shape_ok, next_graph in Hok; cbn [step].
     - (* creation *)
       apply andb_true_iff in Hok. destruct Hok as [Hok Hac].
       apply andb_true_iff in Hok. destruct Hok as [Hfresh Hsub].
@@ -984,7 +980,7 @@ Proof.
 Qed.
 
 Lemma op_ok_shape o s1 s2 : live s1 = live s2 -> gr s1 = gr s2 -> op_ok s1 o = op_ok s2 o.
-Proof. intros El Eg. destruct o; cbn [op_ok]; now rewrite El, Eg. Qed.
+Proof. intros El Eg. destruct o; unfold op_ok, shape_ok, next_graph; now rewrite El, Eg. Qed.
 
 Lemma hist_shape r1 r2 ops : forall s1 s2, live s1 = live s2 -> gr s1 = gr s2 ->
   hist_ok r1 s1 ops = hist_ok r2 s2 ops /\
@@ -1127,3 +1123,142 @@ Lemma sro_nodup_lemma (reorder : list node -> list node) :
   let st := fold_left (step reorder) ops init in
   forall S, In S (live st) -> NoDup (get_sro st S).
 Proof. intros H ops Hok st S HS. apply inv_NoDup; auto. now apply reachable_inv. Qed.
+
+(* ------------------------------------------------------------------ acyclicb is complete *)
+(* a descending chain of base steps starting at x *)
+Fixpoint chain (g : graph) (x : node) (l : list node) : Prop :=
+  match l with
+  | [] => True
+  | y :: l' => In y (bases g x) /\ chain g y l'
+  end.
+
+Lemma fold_max_argmax (f : node -> nat) l : l <> [] ->
+  exists b, In b l /\ fold_right (fun b m => Nat.max (f b) m) 0 l = f b.
+Proof.
+  induction l as [|a l IH]; [congruence|]. intros _. cbn.
+  destruct l as [|a' l'].
+  - exists a. split; [now left | cbn; lia].
+  - destruct IH as [b [Hb E]]; [discriminate|].
+    destruct (Nat.le_ge_cases (f a) (fold_right (fun b m => Nat.max (f b) m) 0 (a' :: l'))) as [H|H].
+    + exists b. split; [now right|]. rewrite <- E. lia.
+    + exists a. split; [now left|]. lia.
+Qed.
+
+Lemma height_S f g x :
+  height (S f) g x = S (fold_right (fun b m => Nat.max (height f g b) m) 0 (bases g x)).
+Proof. reflexivity. Qed.
+
+(* there is a chain as long as the height says *)
+Lemma height_chain g f : forall x, exists l, chain g x l /\ S (length l) = height (S f) g x.
+Proof.
+  induction f as [|f IH]; intros x.
+  - exists []. split; cbn; auto.
+    destruct (bases g x) as [|b bs]; cbn; auto.
+    clear. induction bs; cbn; auto.
+  - rewrite height_S. destruct (bases g x) as [|b0 bs] eqn:E.
+    + exists []. split; cbn; auto.
+    + destruct (fold_max_argmax (height (S f) g) (b0 :: bs)) as [b [Hb M]]; [discriminate|].
+      destruct (IH b) as [l [C L]]. exists (b :: l). split.
+      * cbn [chain]. rewrite E. auto.
+      * rewrite M. cbn [length]. now rewrite L.
+Qed.
+
+Lemma chain_ranks g r : ranked g r -> forall l x, chain g x l -> forall y, In y l -> r y < r x.
+Proof.
+  intros R l. induction l as [|a l IH]; intros x C y Hy; [destruct Hy|].
+  destruct C as [Ha C]. specialize (R _ _ Ha). destruct Hy as [<-|Hy]; auto.
+  specialize (IH _ C _ Hy). lia.
+Qed.
+
+Lemma chain_NoDup g r : ranked g r -> forall l x, chain g x l -> NoDup (x :: l).
+Proof.
+  intros R l. induction l as [|a l IH]; intros x C; [repeat constructor; intros []|].
+  constructor.
+  - intros K. pose proof (chain_ranks g r R _ _ C x K). lia.
+  - destruct C as [_ C]. now apply IH.
+Qed.
+
+Lemma chain_keys g : (forall x b, In x (map fst g) -> In b (bases g x) -> In b (map fst g)) ->
+  forall l x, In x (map fst g) -> chain g x l -> incl (x :: l) (map fst g).
+Proof.
+  intros Hc l. induction l as [|a l IH]; intros x Hx C y [<-|Hy]; auto; [destruct Hy|].
+  destruct C as [Ha C]. apply (IH a); auto. eapply Hc; eauto.
+Qed.
+
+Lemma height_mono g f : forall x, height f g x <= height (S f) g x.
+Proof.
+  induction f as [|f IH]; intros x; [cbn; lia|].
+  rewrite (height_S (S f)), (height_S f). apply le_n_S.
+  induction (bases g x) as [|b bs IHb]; cbn [fold_right]; [lia|]. specialize (IH b). lia.
+Qed.
+
+(* a height that still grows with the fuel has used all of it *)
+Lemma height_stable g f : forall x, height f g x < height (S f) g x -> height f g x = f.
+Proof.
+  induction f as [|f IH]; intros x H; [reflexivity|].
+  pose proof (height_le (S f) g x) as Hle.
+  rewrite (height_S (S f)), (height_S f) in H. apply Nat.succ_lt_mono in H.
+  assert (Ex : exists b, In b (bases g x) /\ height f g b < height (S f) g b).
+  { revert H. induction (bases g x) as [|b bs IHb]; cbn [fold_right]; [lia|]. intros H.
+    destruct (Nat.lt_ge_cases (height f g b) (height (S f) g b)) as [K|K].
+    - exists b. split; [now left | auto].
+    - destruct IHb as [b' [Hb' K']]; [|exists b'; split; [now right | auto]].
+      pose proof (height_mono g f b). lia. }
+  destruct Ex as [b [Hb K]]. apply IH in K.
+  rewrite (height_S f) in *.
+  pose proof (fold_max_ge (height f g) _ _ Hb). lia.
+Qed.
+
+Lemma acyclicb_complete_lemma g :
+  acyclic g ->
+  (forall x b, In x (map fst g) -> In b (bases g x) -> In b (map fst g)) ->
+  acyclicb g = true.
+Proof.
+  intros [r R] Hc. unfold acyclicb.
+  apply forallb_forall. intros x Hx. apply forallb_forall. intros b Hb.
+  apply Nat.ltb_lt.
+  destruct (length g) as [|n] eqn:En.
+  { destruct g; [destruct Hx | discriminate]. }
+  destruct (Nat.lt_ge_cases (height (S n) g b) (height (S n) g x)) as [?|Hge]; auto. exfalso.
+  (* height (S n) x = S (max ... height n b' ...) > height n b, so b's height still grows *)
+  assert (G : height n g b < height (S n) g b).
+  { rewrite (height_S n g x) in Hge. pose proof (fold_max_ge (height n g) _ _ Hb). lia. }
+  pose proof (height_stable g n b G) as Hn.
+  pose proof (height_mono g n b). pose proof (height_le (S n) g b).
+  assert (Hb' : height (S n) g b = S n) by lia.
+  destruct (height_chain g n b) as [l [C L]]. rewrite Hb' in L.
+  assert (C' : chain g x (b :: l)) by (cbn; auto).
+  pose proof (chain_NoDup g r R _ _ C') as ND.
+  pose proof (chain_keys g Hc _ _ Hx C') as Inc.
+  pose proof (NoDup_incl_length ND Inc) as Len.
+  rewrite map_length, En in Len. cbn [length] in Len. lia.
+Qed.
+
+(* in a reachable state the well-formedness check rejects nothing but cycles *)
+Lemma op_ok_complete_lemma (reorder : list node -> list node) :
+  (forall l y, In y (reorder l) <-> In y l) ->
+  forall ops, hist_ok reorder init ops = true ->
+  let st := fold_left (step reorder) ops init in
+  forall o, shape_ok st o = true -> acyclic (next_graph st o) -> op_ok st o = true.
+Proof.
+  intros Hre ops Hok st o Hs Hac. unfold op_ok. rewrite Hs. cbn [andb].
+  pose proof (reachable_inv reorder Hre ops Hok) as I. fold st in I.
+  apply acyclicb_complete_lemma; auto.
+  assert (Hk : forall y b, In b (bases (gr st) y) -> In b (map fst (gr st))).
+  { intros y b Hb. apply (inv_keys _ I).
+    destruct (in_dec Nat.eq_dec y (live st)) as [Hy|Hy].
+    - eapply (inv_closed _ I); eauto.
+    - rewrite (inv_dead _ I y Hy) in Hb. destruct Hb. }
+  assert (G : forall x bs, (forall b, In b bs -> In b (map fst (gr st))) ->
+              forall y b, In b (bases ((x, bs) :: gr st) y) -> In b (map fst ((x, bs) :: gr st))).
+  { intros x bs Hbs y b Hb. cbn [map fst]. right.
+    destruct (Nat.eq_dec y x) as [->|N].
+    - rewrite bases_cons_same in Hb. auto.
+    - rewrite bases_cons_other in Hb by auto. eapply Hk; eauto. }
+  destruct o as [x k bs | x bs | x]; cbn [next_graph shape_ok] in *; intros y b _; apply G.
+  - apply andb_true_iff in Hs. destruct Hs as [_ Hs]. intros b' Hb'.
+    apply (inv_keys _ I). eapply subset_In; eauto.
+  - apply andb_true_iff in Hs. destruct Hs as [_ Hs]. intros b' Hb'.
+    apply (inv_keys _ I). eapply subset_In; eauto.
+  - intros b' [].
+Qed.
